@@ -374,15 +374,15 @@ fn domains() -> Domains {
     };
     Domains {
         area_opt: vec![opt("", "area_opt", "absent", &[]), o("area_opt", "good", "50", "-a"), o("area_opt", "good", "0.0011", "-a"), o("area_opt", "bad", "0.001", "-a"), o("area_opt", "bad", "0", "-a"), o("area_opt", "bad", "-5", "--arearef="), o("area_opt", "bad", "abc", "-a")],
-        area_meta: vec![meta("area_meta", "absent", "", None), meta("area_meta", "good:200.5", "CTE_AREAREF", Some("200.5")), meta("area_meta", "bad:abc", "CTE_AREAREF", Some("abc")), meta("area_meta", "bad:0", "CTE_AREAREF", Some("0"))],
+        area_meta: vec![meta("area_meta", "absent", "", None), meta("area_meta", "good:200.5", "CTE_AREAREF", Some("200.5")), meta("area_meta", "good:50", "CTE_AREAREF", Some("50")), meta("area_meta", "good:50.0004", "CTE_AREAREF", Some("50.0004")), meta("area_meta", "bad:abc", "CTE_AREAREF", Some("abc")), meta("area_meta", "bad:0", "CTE_AREAREF", Some("0"))],
         k_opt: vec![opt("", "k_opt", "absent", &[]), o("k_opt", "good", "0.5", "-k"), o("k_opt", "good", "0", "-k"), o("k_opt", "good", "1", "-k"), o("k_opt", "bad", "1.01", "-k"), o("k_opt", "bad", "-0.1", "--kexp="), o("k_opt", "bad", "x", "-k")],
-        k_meta: vec![meta("k_meta", "absent", "", None), meta("k_meta", "good:0.7", "CTE_KEXP", Some("0.7")), meta("k_meta", "good:0.25", "CTE_KEXP", Some("0.25")), meta("k_meta", "bad:2", "CTE_KEXP", Some("2")), meta("k_meta", "bad:x", "CTE_KEXP", Some("x"))],
+        k_meta: vec![meta("k_meta", "absent", "", None), meta("k_meta", "good:0.7", "CTE_KEXP", Some("0.7")), meta("k_meta", "good:0.25", "CTE_KEXP", Some("0.25")), meta("k_meta", "good:0.5", "CTE_KEXP", Some("0.5")), meta("k_meta", "good:0", "CTE_KEXP", Some("0")), meta("k_meta", "good:1.0", "CTE_KEXP", Some("1.0")), meta("k_meta", "bad:2", "CTE_KEXP", Some("2")), meta("k_meta", "bad:x", "CTE_KEXP", Some("x"))],
         loc_opt: vec![opt("", "loc_opt", "absent", &[]), o("loc_opt", "good", "PENINSULA", "-l"), o("loc_opt", "good", "CANARIAS", "-l"), o("loc_opt", "bad", "MARTE", "-l")],
-        loc_meta: vec![meta("loc_meta", "absent", "", None), meta("loc_meta", "good:BALEARES", "CTE_LOCALIZACION", Some("BALEARES")), meta("loc_meta", "bad:LUNA", "CTE_LOCALIZACION", Some("LUNA"))],
+        loc_meta: vec![meta("loc_meta", "absent", "", None), meta("loc_meta", "good:BALEARES", "CTE_LOCALIZACION", Some("BALEARES")), meta("loc_meta", "good:PENINSULA", "CTE_LOCALIZACION", Some("PENINSULA")), meta("loc_meta", "bad:LUNA", "CTE_LOCALIZACION", Some("LUNA"))],
         red1_opt: vec![opt("", "red1_opt", "absent", &[]), opt("", "red1_opt", "good:0.5 0.5 0.1", &["--red1", "0.5", "0.5", "0.1"]), opt("", "red1_opt", "bad:a 1 1", &["--red1", "a", "1", "1"])],
-        red1_meta: vec![meta("red1_meta", "absent", "", None), meta("red1_meta", "good:0.2, 0.8, 0.05", "CTE_RED1", Some("0.2, 0.8, 0.05")), meta("red1_meta", "bad:x, y", "CTE_RED1", Some("x, y")), meta("red1_meta", "bad:1, 2", "CTE_RED1", Some("1, 2"))],
+        red1_meta: vec![meta("red1_meta", "absent", "", None), meta("red1_meta", "good:0.2, 0.8, 0.05", "CTE_RED1", Some("0.2, 0.8, 0.05")), meta("red1_meta", "good:0.5, 0.5, 0.1", "CTE_RED1", Some("0.5, 0.5, 0.1")), meta("red1_meta", "good:0, 1.3, 0.3", "CTE_RED1", Some("0, 1.3, 0.3")), meta("red1_meta", "bad:x, y", "CTE_RED1", Some("x, y")), meta("red1_meta", "bad:1, 2", "CTE_RED1", Some("1, 2"))],
         red2_opt: vec![opt("", "red2_opt", "absent", &[]), opt("", "red2_opt", "good:0.25 0.75 0.2", &["--red2", "0.25", "0.75", "0.2"]), opt("", "red2_opt", "bad:1 b 1", &["--red2", "1", "b", "1"])],
-        red2_meta: vec![meta("red2_meta", "absent", "", None), meta("red2_meta", "good:0.4, 0.6, 0.15", "CTE_RED2", Some("0.4, 0.6, 0.15")), meta("red2_meta", "bad:nada", "CTE_RED2", Some("nada"))],
+        red2_meta: vec![meta("red2_meta", "absent", "", None), meta("red2_meta", "good:0.4, 0.6, 0.15", "CTE_RED2", Some("0.4, 0.6, 0.15")), meta("red2_meta", "good:0.25, 0.75, 0.2", "CTE_RED2", Some("0.25, 0.75, 0.2")), meta("red2_meta", "bad:nada", "CTE_RED2", Some("nada"))],
         file: vec![opt("", "file", "absent", &[]), opt("", "file", "good:f.csv", &["-f", "@f.csv"])],
     }
 }
@@ -439,7 +439,7 @@ pub fn run(ctx: &Ctx) -> i32 {
         &C19,
         Finish {
             level: "model_checking",
-            rule: "configuration space of the real binary: for each of area, k_exp, location, RED1, RED2 the full domain option {absent, valid, boundary, out of range, non-numeric} x metadata {absent, valid, invalid} with the others absent; the full product {absent, valid}^10 x {no factors file, factors file} (2048 runs); thorough: all pairs of parameters over full domains; every run compared with a 60-line precedence model: exit code, origin label and value of the three echo lines, k_exp / arearef / RED factors in --json, metadata of --oc, results equal to a library evaluation with the resolved values; non-trivial = run accepted".into(),
+            rule: "configuration space of the real binary: for each of area, k_exp, location, RED1, RED2 the full domain option {absent, valid, boundary, out of range, non-numeric} x metadata {absent, valid (different from / equal to the option value), invalid} with the others absent; the full product {absent, valid}^10 x {no factors file, factors file} (2048 runs); thorough: all pairs of parameters over full domains; every run compared with a 60-line precedence model: exit code, origin label and value of the three echo lines, k_exp / arearef / RED factors in --json, metadata of --oc, results equal to a library evaluation with the resolved values; non-trivial = run accepted".into(),
             assumptions: strs(&[
                 "values echoed or recorded are compared at the precision the program prints",
                 "several bad values at once: any of their exit codes is accepted",
